@@ -195,7 +195,7 @@ void fp3_field_init(void) {
 		if (fp3_srt(t1, t0)) {
 			ctx->cnr3 = 1;
 			fp_set_dig(t0[0], ctx->cnr3);
-			while (fp3_srt(t1, t0) && util_bits_dig(ctx->qnr2) < RLC_DIG - 1) {
+			while (fp3_srt(t1, t0) && util_bits_dig(ctx->cnr3) < RLC_DIG - 1) {
 				/* Pick a power of 2 for efficiency. */
 				ctx->cnr3 *= 2;
 				fp_set_dig(t0[0], ctx->cnr3);
